@@ -100,7 +100,7 @@ def pcapng_block(btype, body, e="<"):
     return struct.pack(e + "II", btype, total) + _pad4(body) + struct.pack(e + "I", total)
 
 
-def write_pcapng(path, items, *, endian="<", tsresol=6, tsoffset=0, snaplen=0, offset_first=False, pre_idb=()):
+def write_pcapng(path, items, *, endian="<", tsresol=6, tsoffset=0, snaplen=0, offset_first=False, pre_idb=(), ifaces=1, late_idb=False):
     """items: list of ('pkt', ts_us:int, frame) | ('dsb', text_bytes) | ('raw', btype, body)
     ts_us is integer microseconds since epoch; converted exactly to the chosen resolution when possible."""
     e = endian
@@ -120,15 +120,28 @@ def write_pcapng(path, items, *, endian="<", tsresol=6, tsoffset=0, snaplen=0, o
         elif it[0] == "raw":
             out += pcapng_block(it[1], it[2], e)
     out += pcapng_block(1, idb, e)
+    # further interfaces with the same time parameters (a capture on several interfaces); packet i belongs to interface i % ifaces; their
+    # description blocks follow the first one, or (late_idb) come right before the first packet that refers to them
+    described = 1
+    if not late_idb:
+        for _ in range(1, ifaces):
+            out += pcapng_block(1, idb, e)
+        described = ifaces
+    npkt = 0
     for it in items:
         if it[0] == "pkt":
+            ifid = npkt % ifaces
+            npkt += 1
+            while described <= ifid:
+                out += pcapng_block(1, idb, e)
+                described += 1
             _, ts_us, frame = it
             # ts_us: int microseconds, or Fraction seconds (exact); converted to the interface's unit by floor
             sec = Fraction(ts_us, 1_000_000) if isinstance(ts_us, int) else Fraction(ts_us)
             sec -= tsoffset
             per_s = (1 << (tsresol & 0x7F)) if tsresol & 0x80 else 10 ** tsresol
             units = int(sec * per_s)
-            body = struct.pack(e + "IIIII", 0, units >> 32, units & 0xFFFFFFFF, len(frame), len(frame)) + frame
+            body = struct.pack(e + "IIIII", ifid, units >> 32, units & 0xFFFFFFFF, len(frame), len(frame)) + frame
             out += pcapng_block(6, body, e)
         elif it[0] == "spb":        # Simple Packet Block: original length + data, no interface id, no timestamp
             out += pcapng_block(3, struct.pack(e + "I", len(it[1])) + it[1], e)
